@@ -93,6 +93,16 @@ fn explore<S: shuttle::scheduler::Scheduler + 'static>(
     execs: &AtomicU64,
     inter: &Mutex<BTreeSet<u64>>,
 ) -> Result<(), Failure> {
+    explore_mode(sc, sched, execs, inter, false)
+}
+
+fn explore_mode<S: shuttle::scheduler::Scheduler + 'static>(
+    sc: &Scenario,
+    sched: S,
+    execs: &AtomicU64,
+    inter: &Mutex<BTreeSet<u64>>,
+    independent: bool,
+) -> Result<(), Failure> {
     let failure: Arc<Mutex<Option<Failure>>> = Arc::new(Mutex::new(None));
     let f2 = failure.clone();
     let sc2 = sc.clone();
@@ -105,7 +115,7 @@ fn explore<S: shuttle::scheduler::Scheduler + 'static>(
                 return; // already failed in an earlier schedule: skip the rest cheaply
             }
             seasim::seams::set_in_shuttle(true);
-            let findings = run_scenario::<ShuttleRt>(&sc2);
+            let findings = run_scenario_mode::<ShuttleRt>(&sc2, independent);
             seasim::seams::set_in_shuttle(false);
             execs2.fetch_add(1, Ordering::Relaxed);
             let schedule = shuttle_engine::runtime::execution::CurrentSchedule::get_schedule();
@@ -210,6 +220,8 @@ fn cmd_run(args: &[String]) -> i32 {
         std::fs::create_dir_all(d).ok();
     }
     let baseline_only = args.iter().any(|a| a == "--baseline-only");
+    let small = args.iter().any(|a| a == "--small");
+    let needs_sharing = AtomicU64::new(0);
 
     let next = AtomicU64::new(first_program);
     let programs = first_program + programs;
@@ -247,7 +259,7 @@ fn cmd_run(args: &[String]) -> i32 {
                     }
                     let ps = run_seed(seed, i);
                     let mut r = Rng::new(ps);
-                    let scn = gen_scenario(&mut r, false);
+                    let scn = gen_scenario(&mut r, small);
                     if baseline_only {
                         // thread-free execution only (used to classify a crash)
                         let base = seasim::observe::guarded(|| run_scenario::<SeqRt>(&scn));
@@ -292,6 +304,23 @@ fn cmd_run(args: &[String]) -> i32 {
                             done.fetch_add(1, Ordering::Relaxed);
                             continue;
                         }
+                    };
+                    // Does the failure need structure shared between a clone and its source? Then it is
+                    // a value-operation matter (C15: "later changes to either never show in the
+                    // other"), reachable on one thread, and is not reported here.
+                    let fail = match fail {
+                        Some((sched, f)) if f.findings.iter().any(|x| x.check != "harness") => {
+                            let depth = 1 + (ps % 3) as usize;
+                            let still = explore_mode(&scn, RandomScheduler::new_from_seed(ps, schedules * 4), &execs, &inter, true).is_err()
+                                || explore_mode(&scn, PctScheduler::new_from_seed(ps, depth, schedules * 4), &execs, &inter, true).is_err();
+                            if still {
+                                Some((sched, f))
+                            } else {
+                                needs_sharing.fetch_add(1, Ordering::Relaxed);
+                                None
+                            }
+                        }
+                        other => other,
                     };
                     if let Some((sched, f)) = fail {
                         // minimise: smaller scenarios, schedules re-explored for each candidate
@@ -355,6 +384,7 @@ fn cmd_run(args: &[String]) -> i32 {
         "interleaving_measure": "distinct serialised shuttle schedules (task choice at every scheduling point)",
         "scenario_kinds": *kinds.lock().unwrap(),
         "programs_failing_without_threads": not_schedule_dependent.load(Ordering::Relaxed),
+        "programs_failing_only_with_clone_sharing": needs_sharing.load(Ordering::Relaxed),
         "harness_errors": harness.len(),
         "violation": violation,
         "samples": *samples.lock().unwrap(),
@@ -365,12 +395,13 @@ fn cmd_run(args: &[String]) -> i32 {
         std::fs::write(f, serde_json::to_string_pretty(&summary).unwrap()).ok();
     }
     println!(
-        "{} programs, {} executions, {} distinct schedules, {:.1}s; {} programs fail even without threads (not a C20 matter)",
+        "{} programs, {} executions, {} distinct schedules, {:.1}s; {} programs fail even without threads, {} only when a clone shares structure with its source (not C20 matters)",
         done.load(Ordering::Relaxed),
         execs.load(Ordering::Relaxed),
         inter.lock().unwrap().len(),
         wall,
-        not_schedule_dependent.load(Ordering::Relaxed)
+        not_schedule_dependent.load(Ordering::Relaxed),
+        needs_sharing.load(Ordering::Relaxed)
     );
     exit
 }
